@@ -104,6 +104,13 @@ def C19(tier, seed):
             "solution forest on <= %d detections over 3 frames (all shapes), %d cells per frame, cell labels and "
             "seg ids arbitrary integers" % ((3, 2) if q else (4, 3))),
     ]
+    runs += [
+        Run("unique:bounded_labels:2x2", labels.unique_harness, dict(shape=(2, 2) if q else (3, 2), max_label=2),
+            labels.unique_replay, ("returned",), "cell labels 0..2: unmodelled numpy calls are followed by realising "
+            "the array (case split over cell values) instead of ending inconclusive"),
+        Run("bytrack:bounded_labels", labels.bytrack_harness, dict(N=2 if q else 3, T=2, P=2, max_label=2),
+            labels.bytrack_replay, ("returned",), "forest on <= 2 (3) detections, 2x2 cells, labels and seg ids 0..2"),
+    ]
     return run_property("C19", tier, runs, explanation=R.EXPL, seed=seed, assumptions=[
         "labels are non-negative mathematical integers (uint64 wrap-around outside the claim)",
         "detections of the solution graph are distinct (time, seg_id) pairs with time inside the array",
@@ -239,10 +246,14 @@ def C18(tier, seed):
 
     q = tier == "quick"
     runs = [
-        Run("points:M=%d" % (3 if q else 4), candgraph.points_harness, dict(M=3 if q else 4, frames=4),
+        Run("points:M=3", candgraph.points_harness, dict(M=3, frames=4),
             candgraph.points_replay, ("built", "witness:frame_gap"),
-            "%d detections, each in any of 4 frames (empty frames and gaps included), positions and maximum "
-            "distance arbitrary reals" % (3 if q else 4)),
+            "3 detections, each in any of 4 frames (empty frames and gaps included), 2-D positions and maximum "
+            "distance arbitrary reals (non-linear real arithmetic)"),
+        Run("points1d:M=%d" % (4 if q else 5), candgraph.points_harness, dict(M=4 if q else 5, frames=4, dims=1),
+            candgraph.points_replay, ("built", "witness:frame_gap"),
+            "%d detections in 4 frames, 1-D positions (|a-b| <= r is linear: one more detection is affordable)"
+            % (4 if q else 5)),
         Run("seg:%s" % ("3x2" if q else "3x3"), candgraph.seg_harness,
             dict(shape=(3, 2) if q else (3, 3), labels=3, scale="sym"), candgraph.seg_replay,
             ("built", "witness:empty_middle_frame"),
